@@ -338,10 +338,10 @@ def _substitutions(run: Run, tables: dict) -> None:
     for modname, vector in ((SF, False), (VF, True)):
         m = run.src.need(modname)
         for npt in range(4):
-            for selfref in (False, True):
+            for selfref in (False, True) + (("additive", ) if run.tier == "thorough" else ()):
                 rid = "T8" if selfref else "T7"
                 # coordinates: generic values; in the self-referential variant they mention the system's own base scalars (a trajectory such as [y, x + 5])
-                coords = [sc[(i + 1) % 3] if selfref else var(f"g{i}") for i in range(npt)]
+                coords = [(op("add", var(f"g{i}"), sc[(i + 2) % 3]) if selfref == "additive" else sc[(i + 1) % 3]) if selfref else var(f"g{i}") for i in range(npt)]
                 full = coords + [num(0)] * (3 - npt)
                 exprs = [_generic_expr(sc, f"e{j}") for j in range(3 if vector else 1)]
                 R = SubsReader(m.tree, modname.rsplit(".", 1)[1] + ".py", tables)
